@@ -121,6 +121,13 @@ type AnchorClause struct {
 	K      int
 }
 
+// ImplClause: this function is the value of a func-typed field (or the method behind an interface) whenever
+// When holds; at every return the target contract's ensures are proved under When (obligations impl:<label>).
+type ImplClause struct {
+	Target string
+	When   Clause
+}
+
 type FuncContract struct {
 	Kind     string // func | iface | field | trusted
 	Key      string // klevdb.(*log).Consume ; for iface: klevdb.indexer.Consume ; field: message.Reader.reader
@@ -136,6 +143,7 @@ type FuncContract struct {
 	Flags    map[string]bool // overflow, nilcheck, assumed, pure, inline, noframe
 	Def      CExpr           // for pure functions: result == Def
 	Refines  []string
+	Implements []ImplClause // `implements <field/iface contract> when <cond>`: the target's ensures are extra postconditions here
 	Cases    []Clause // case split: the function is verified once per case, with the case as an extra precondition
 	File     string
 	Line     int
@@ -314,7 +322,7 @@ type parser struct {
 var clauseKW = map[string]bool{
 	"requires": true, "ensures": true, "assigns": true, "loop": true, "invariant": true, "decreases": true,
 	"func": true, "pred": true, "ghost": true, "spec": true, "lemma": true, "iface": true, "field": true,
-	"guarded_by": true, "axiom": true, "trusted": true, "flags": true, "refines": true, "def": true,
+	"guarded_by": true, "axiom": true, "trusted": true, "flags": true, "refines": true, "implements": true, "when": true, "def": true,
 	"modifies": true, "assert": true, "assume": true, "at": true, "package": true, "split": true,
 }
 
@@ -844,6 +852,35 @@ func (p *parser) parseFuncClauses(fc *FuncContract) error {
 				r = p.pkg + "." + r
 			}
 			fc.Refines = append(fc.Refines, r)
+		case "implements":
+			p.next()
+			var sb strings.Builder
+			for {
+				n, err := p.ident()
+				if err != nil {
+					return err
+				}
+				sb.WriteString(n)
+				if p.isOp(".") {
+					p.next()
+					sb.WriteString(".")
+					continue
+				}
+				break
+			}
+			r := sb.String()
+			if strings.Count(r, ".") == 1 {
+				r = p.pkg + "." + r
+			}
+			if !p.isKW("when") {
+				return p.errf("implements: `when <condition>` expected")
+			}
+			p.next()
+			cl, err := p.parseClause()
+			if err != nil {
+				return err
+			}
+			fc.Implements = append(fc.Implements, ImplClause{Target: r, When: cl})
 		case "def":
 			p.next()
 			e, err := p.parseExpr()
